@@ -14,7 +14,8 @@ pub const FOREIGN_FILE: &[u8] = b"NnRYKMSWBDHVXryx-*.";
 
 fn foreign_any() -> BoxedStrategy<u8> {
     prop_oneof![
-        6 => select(b"NnRYKM-* \t0189".to_vec()),
+        4 => Just(b'N'),
+        4 => select(b"NnRYKM-* \t0189".to_vec()),
         2 => 0x04u8..=0x1f,
         2 => 0x80u8..=0xff,
         2 => (0x04u8..=0xffu8).prop_map(|b| if model::is_base(b) { b'N' } else { b }),
@@ -95,20 +96,36 @@ fn low_complexity(scale: usize, len: usize) -> BoxedStrategy<Vec<u8>> {
     .boxed()
 }
 
+/// gap lengths: mostly 1..=3, but also the lengths next to 8, 16, 24, 32 and 64 (word- and block-wise
+/// skipping of runs of ambiguous bytes) and anything up to 70
+fn gap_len() -> BoxedStrategy<usize> {
+    prop_oneof![
+        6 => 1usize..=3,
+        3 => select(vec![7usize, 8, 9, 10, 15, 16, 17, 18, 23, 24, 25, 26, 31, 32, 33, 34, 35, 40, 41, 48, 49, 63, 64, 65, 66, 67]),
+        1 => 1usize..=70,
+    ]
+    .boxed()
+}
+
 fn segments(scale: usize, max: usize, file_safe: bool) -> BoxedStrategy<Vec<u8>> {
     let seg_len = prop_oneof![
         6 => scale.saturating_sub(2)..=(scale + 2),
+        2 => Just(scale),
         1 => Just(1usize),
         1 => Just(2 * scale),
         2 => 0..=(3 * scale + 3),
     ];
     (
-        vec((seg_len, 1usize..=3, foreign(file_safe), any::<u64>()), 1..=8),
+        vec((seg_len, gap_len(), foreign(file_safe), any::<u64>()), 1..=8),
         any::<bool>(),
         any::<bool>(),
         foreign(file_safe),
+        // all gaps filled with the same byte (runs of one ambiguous byte, as in N-masked assemblies)
+        prop::bool::weighted(0.6),
+        // the text is cut to the limit from the left, so that its end (last segment, trailing gap) survives
+        any::<bool>(),
     )
-        .prop_map(move |(segs, lead, trail, fb)| {
+        .prop_map(move |(segs, lead, trail, fb, same, keep_end)| {
             let mut out = Vec::new();
             if lead {
                 out.push(fb);
@@ -121,12 +138,20 @@ fn segments(scale: usize, max: usize, file_safe: bool) -> BoxedStrategy<Vec<u8>>
                     out.push(CLEAN[(s >> 33) as usize % 4]);
                 }
                 if i + 1 < n || trail {
+                    // a trailing gap is short: the interesting tails are "a few more of the same byte"
+                    let fl = if i + 1 == n { 1 + fl % 5 } else { fl };
                     for _ in 0..fl {
-                        out.push(f);
+                        out.push(if same { fb } else { f });
                     }
                 }
             }
-            out.truncate(max);
+            if out.len() > max {
+                if keep_end {
+                    out.drain(..out.len() - max);
+                } else {
+                    out.truncate(max);
+                }
+            }
             out
         })
         .boxed()
